@@ -278,7 +278,7 @@ pub fn builder_model(calls: &[BCall]) -> BuiltModel {
     let mut middlewares: Vec<u32> = vec![];
     let mut without = false;
     let mut hole_ok = false;
-    let mut hole_reducers = false;
+    let hole_reducers = false;
     for c in calls {
         match c {
             BCall::WithName(n) => name = n.clone(),
@@ -295,11 +295,9 @@ pub fn builder_model(calls: &[BCall]) -> BuiltModel {
             }
             BCall::AddReducer(t) => reducers.push(*t),
             BCall::WithoutReducer => {
-                if !reducers.is_empty() {
-                    // whether reducers configured before without_reducer() are still used is
-                    // not stated
-                    hole_reducers = true;
-                }
+                // without_reducer() is an option of its own (a flag that permits an empty chain);
+                // by option independence it does not touch the reducers configured so far, and a
+                // later add_reducer() appends to them
                 without = true;
             }
             BCall::WithCapacity(c) => capacity = *c,
